@@ -1,6 +1,8 @@
 (* C19 -- Sample statistics and burn-in/thinning are exact functions of the stored chain.
    Property theorems only: each is closed by `exact <lemma>` and followed by Print Assumptions. *)
-From CV Require Import Base.Tac Base.Cmp Model.C19_Stats Proofs.C19_Stats Model.C19_History Proofs.C19_History.
+From CV Require Import Base.Tac Base.Cmp Model.C19_Stats Proofs.C19_Stats Model.C19_Rhat Model.C19_History Proofs.C19_History
+  Proofs.C19_Percentile Proofs.C19_Rhat Proofs.C19_BurnthinZ.
+From Coq Require Import Sorting.Permutation.
 From Coq Require Import QArith Sorting.Sorted.
 
 (* burnthin(Nb,Nt) returns exactly the stored samples Nb, Nb+Nt, Nb+2Nt, ... in order: the i-th
@@ -161,13 +163,155 @@ Theorem C19_rhat_geometry_eq_history_refuted :
 Proof. exact geometry_eq_lazy_cache_refuted. Qed.
 Print Assumptions C19_rhat_geometry_eq_history_refuted.
 
+(* ---------------- percentile = interpolated order statistics (numpy's default "linear" method) ---------------- *)
+(* a function of the order statistics only: any sorted rearrangement of the chain gives it *)
+Theorem C19_percentile_order_statistics : forall (l s : list Z) (pn : Z) (pd : positive),
+  Permutation l s -> StronglySorted Z.le s ->
+  percentile l pn pd = inject_Z (interpZ s (100 * Z.pos pd) (pn * (zlen l - 1))) / inject_Z (100 * Z.pos pd).
+Proof. exact percentile_order_statistics. Qed.
+Print Assumptions C19_percentile_order_statistics.
+
+(* at the grid points q = 100 k/(n-1) (in any representation pn/pd) it IS the k-th order statistic *)
+Theorem C19_percentile_grid : forall (l : list Z) (pn : Z) (pd : positive) (k : Z),
+  (0 <= k)%Z -> (pn * (zlen l - 1) = 100 * Z.pos pd * k)%Z -> percentile l pn pd == inject_Z (znth (isort l) k).
+Proof. exact percentile_grid. Qed.
+Print Assumptions C19_percentile_grid.
+
+(* in between it is affine: s[k] + (h - k)(s[k+1] - s[k]) with h = q/100 (n-1), k = floor h, and k, k+1 stay inside the chain *)
+Theorem C19_percentile_affine : forall (l : list Z) (pn : Z) (pd : positive),
+  let B := (100 * Z.pos pd)%Z in let a := (pn * (zlen l - 1))%Z in let k := (a / B)%Z in let s := isort l in
+  percentile l pn pd == inject_Z (znth s k) + (inject_Z a / inject_Z B - inject_Z k) * inject_Z (znth s (k + 1) - znth s k).
+Proof. exact percentile_affine. Qed.
+Print Assumptions C19_percentile_affine.
+
+Theorem C19_percentile_index_range : forall (l : list Z) (pn : Z) (pd : positive), l <> [] ->
+  (0 <= pn <= 100 * Z.pos pd)%Z ->
+  let B := (100 * Z.pos pd)%Z in let a := (pn * (zlen l - 1))%Z in
+  (0 <= a / B <= zlen l - 1)%Z /\ ((a mod B <> 0)%Z -> (a / B + 1 <= zlen l - 1)%Z).
+Proof. exact percentile_index_range. Qed.
+Print Assumptions C19_percentile_index_range.
+
+Theorem C19_percentile_same_cell : forall (l : list Z) (pn1 pn2 : Z) (pd : positive),
+  let B := (100 * Z.pos pd)%Z in
+  (pn1 * (zlen l - 1) / B = pn2 * (zlen l - 1) / B)%Z ->
+  let k := (pn1 * (zlen l - 1) / B)%Z in
+  percentile l pn2 pd - percentile l pn1 pd ==
+    (inject_Z ((pn2 - pn1) * (zlen l - 1)) / inject_Z B) * inject_Z (znth (isort l) (k + 1) - znth (isort l) k).
+Proof. exact percentile_same_cell. Qed.
+Print Assumptions C19_percentile_same_cell.
+
+Theorem C19_median_odd_even : forall (l : list Z) (m : Z),
+  (zlen l = 2 * m + 1 -> 0 <= m -> median l == inject_Z (znth (isort l) m))%Z /\
+  (zlen l = 2 * m -> 1 <= m -> median l == (inject_Z (znth (isort l) (m - 1)) + inject_Z (znth (isort l) m)) / (2 # 1))%Z.
+Proof. intros l m. split; [exact (median_odd l m) | exact (median_even l m)]. Qed.
+Print Assumptions C19_median_odd_even.
+
+(* every statistic of vector-valued / flattened multi-dimensional function-value samples is, in component k, the
+   statistic of the chain of component k; in particular the credible interval is ordered in every component *)
+Theorem C19_per_component : forall (B : Type) (f : list Z -> B) (dim : nat) (samples : list (list Z)) (k : nat) (d : B),
+  (k < dim)%nat -> nth k (per_coord f dim samples) d = f (coordchain k samples) /\ length (per_coord f dim samples) = dim.
+Proof. intros B f dim samples k d H. split; [exact (per_coord_nth f dim samples k d H) | exact (per_coord_length f dim samples)]. Qed.
+Print Assumptions C19_per_component.
+
+Theorem C19_ci_per_component : forall (dim : nat) (samples : list (list Z)) (cn : Z) (cd : positive) (k : nat),
+  samples <> [] -> (k < dim)%nat -> (0 <= cn <= 100 * Z.pos cd)%Z ->
+  let lo := nth k (per_coord (fun l => ci_lo l cn cd) dim samples) 0 in
+  let hi := nth k (per_coord (fun l => ci_hi l cn cd) dim samples) 0 in
+  let md := nth k (per_coord median dim samples) 0 in
+  let w := nth k (per_coord (fun l => ci_width l cn cd) dim samples) 0 in
+  lo <= md /\ md <= hi /\ w == hi - lo /\ 0 <= w.
+Proof. exact ci_per_component. Qed.
+Print Assumptions C19_ci_per_component.
+
+(* the integer-sum form of the variance used for chains with thousands of draws is the variance *)
+Theorem C19_variance_fast : forall l : list Z, l <> [] -> variance_fast l == variance l.
+Proof. exact variance_fast_eq. Qed.
+Print Assumptions C19_variance_fast.
+
+(* ---------------- R-hat: what "receives each variable's chain unpermuted" protects ---------------- *)
+(* hand-over (repaired length validation): every chain arviz.rhat receives is a stored chain, complete and in order *)
+Theorem C19_rhat_handover_exact : forall (g : geom) (x : hobj) (ys : list hobj) (geq : bool) (m : rmethod)
+    (d : list (string * list (list Z))) (sq : option (list (option Q))),
+  g_rhat_bcast g = false -> rhat_value g x ys geq m = VRhat d sq ->
+  d = dict_of (zip (g_names g) (map (fun k => map (coordchain k) (s_chain x :: map s_chain ys))
+                                    (seq 0 (chain_dim (s_chain x))))) /\
+  Forall (fun y => length (s_chain y) = length (s_chain x)) ys.
+Proof. exact rhat_handover_exact. Qed.
+Print Assumptions C19_rhat_handover_exact.
+
+(* FINDING: the code as it stands also accepts a chain with ONE draw and hands arviz that draw repeated *)
+Import String.StringSyntax. Local Open Scope string_scope.
+Theorem C19_rhat_one_draw_broadcast_refuted :
+  exists g x y d sq, g_rhat_bcast g = true /\ rhat_value g x [y] true RRank = VRhat d sq /\
+    length (s_chain y) <> length (s_chain x) /\ d = [("v", [[1; 2; 3; 4]; [7; 7; 7; 7]])]%Z.
+Proof. exact rhat_one_draw_broadcast_refuted. Qed.
+Print Assumptions C19_rhat_one_draw_broadcast_refuted.
+
+(* the classic (method="identity") value depends on every chain only as a multiset of draws, and on the chains only
+   as a multiset; it is at least (n-1)/n *)
+Theorem C19_rhat_identity_draw_order : forall chains chains' : list (list Z),
+  Forall2 (@Permutation Z) chains chains' -> rhat_sq chains == rhat_sq chains'.
+Proof. exact rhat_identity_draw_order. Qed.
+Print Assumptions C19_rhat_identity_draw_order.
+
+Theorem C19_rhat_chain_order : forall (n : nat) (chains chains' : list (list Z)),
+  Forall (fun c => length c = n) chains -> Permutation chains chains' -> rhat_sq chains == rhat_sq chains'.
+Proof. exact rhat_chain_order. Qed.
+Print Assumptions C19_rhat_chain_order.
+
+Theorem C19_rhat_lower_bound : forall chains : list (list Z),
+  (2 <= length chains)%nat -> (1 <= length (hd [] chains))%nat -> 0 < rhat_W chains ->
+  let n := inject_Z (zlen (hd [] chains)) in (n - 1) / n <= rhat_sq chains.
+Proof. exact rhat_sq_lower_bound. Qed.
+Print Assumptions C19_rhat_lower_bound.
+
+(* the split value (and with it arviz's default) depends on the ORDER of the draws: permuting a chain changes it *)
+Theorem C19_rhat_split_draw_order_refuted :
+  exists chains chains', Forall2 (@Permutation Z) chains chains' /\
+    ~ rhat_sq (split_chains chains) == rhat_sq (split_chains chains').
+Proof. exact rhat_split_draw_order_refuted. Qed.
+Print Assumptions C19_rhat_split_draw_order_refuted.
+
+(* ---------------- burnthin outside the documented domain (negative integers): pinned, not refused ---------------- *)
+Theorem C19_burnthin_z_documented : forall (A : Type) (l : list A) (nb nt : Z),
+  (0 <= nb)%Z -> (0 < nt)%Z -> burnthin_z nb nt l = burnthin (Z.to_nat nb) (Z.to_nat nt) l.
+Proof. intros A. exact (@burnthin_z_documented A). Qed.
+Print Assumptions C19_burnthin_z_documented.
+
+Theorem C19_burnthin_z_negative_nb : forall (A : Type) (l : list A) (nb nt : Z),
+  l <> [] -> (nb < 0)%Z -> (0 < nt)%Z ->
+  burnthin_z nb nt l = burnthin (length l - Nat.min (Z.to_nat (- nb)) (length l)) (Z.to_nat nt) l.
+Proof. intros A. exact (@burnthin_z_negative_nb A). Qed.
+Print Assumptions C19_burnthin_z_negative_nb.
+
+Theorem C19_burnthin_z_negative_nt : forall (A : Type) (l : list A) (nb nt : Z),
+  (0 <= nb < Z.of_nat (length l))%Z -> (nt < 0)%Z ->
+  burnthin_z nb nt l = Some (thin (Z.to_nat (- nt)) (rev (firstn (Z.to_nat nb + 1) l))).
+Proof. intros A. exact (@burnthin_z_negative_nt A). Qed.
+Print Assumptions C19_burnthin_z_negative_nt.
+
+Theorem C19_burnthin_outside_domain_refuted :
+  burnthin_z (-2) 1 [10; 11; 12; 13; 14]%Z = Some [13; 14]%Z /\
+  burnthin_z (-9) 1 [10; 11; 12]%Z = Some [10; 11; 12]%Z /\
+  burnthin_z 3 (-2) [10; 11; 12; 13; 14]%Z = Some [13; 11]%Z /\
+  burnthin_z (-9) (-1) [10; 11; 12]%Z = Some [].
+Proof. exact burnthin_z_outside_domain_refuted. Qed.
+Print Assumptions C19_burnthin_outside_domain_refuted.
+
+(* non-vacuity of the percentile / R-hat theorems *)
+Example C19_percentile_rhat_example :
+  percentile [3; 1; 2; 5; 4]%Z 25 1 == 2 /\ percentile [3; 1; 2; 5; 4]%Z 30 1 == 22 # 10 /\
+  rhat_sq_opt RIdentity [[1; 2; 3; 4]; [2; 3; 4; 6]]%Z = Some (rhat_sq [[1; 2; 3; 4]; [2; 3; 4; 6]]%Z) /\
+  0 < rhat_W [[1; 2; 3; 4]; [2; 3; 4; 6]]%Z.
+Proof. vm_compute. repeat split; reflexivity. Qed.
+
 (* non-vacuity of the history theorems: a concrete history (median, burnthin, median of the child, median again) *)
 Example C19_history_example :
   let st := [mkS [[5]; [1]; [4]; [2]; [3]]%Z true true 0%nat] in
-  map fst (run (mkG [] 1 0 false) [OMedian 0; OBurnthin 0 1 2; OMedian 1; OMedian 0] st) =
+  map fst (run (mkG [] 1 0 false false false) [OMedian 0; OBurnthin 0 1 2; OMedian 1; OMedian 0] st) =
     [VStat [median [5; 1; 4; 2; 3]%Z]; VObj (mkS [[1]; [2]]%Z true true 0%nat); VStat [median [1; 2]%Z];
      VStat [median [5; 1; 4; 2; 3]%Z]] /\
-  final (mkG [] 1 0 false) [OMedian 0; OBurnthin 0 1 2; OMedian 1; OMedian 0] st =
+  final (mkG [] 1 0 false false false) [OMedian 0; OBurnthin 0 1 2; OMedian 1; OMedian 0] st =
     st ++ [mkS [[1]; [2]]%Z true true 0%nat].
 Proof. split; reflexivity. Qed.
 
